@@ -9,6 +9,14 @@ CLASS_NAMES = ["K1", "K1x", "Q"]
 STRS = ["a", "b c", "é", ""]
 
 
+def fmt_float(x):
+    """Rust's Display for f64 on the values used here (halves): integral values print without a fraction, -0.0 prints -0."""
+    import math
+    if x == int(x):
+        return ("-" if math.copysign(1.0, x) < 0 else "") + str(abs(int(x)))
+    return repr(x)
+
+
 def class_source(name, feats, prev):
     """feats: set of optional fields out of {"s","xs","o","peer","other"}; prev = earlier class name or None."""
     L = []
@@ -30,12 +38,16 @@ def class_source(name, feats, prev):
         L.append("\tflag: bool")
     if "big" in feats:
         L.append("\tbig: bigint")
+    if "fl" in feats:
+        L.append("\tfl: float")
     L.append("\tconstructor(self, n: int) {")
     L.append("\t\tself.n = n + kseed - 5")      # kseed: a module-level variable only the constructor mentions
     if "flag" in feats:
         L.append("\t\tself.flag = false")
     if "big" in feats:
         L.append("\t\tself.big = B1")
+    if "fl" in feats:
+        L.append("\t\tself.fl = 0.0")
     if "me" in feats:
         L.append("\t\tself.selfref = self")
     if "s" in feats:
@@ -72,6 +84,9 @@ def class_source(name, feats, prev):
     if "flag" in feats:
         L.append("\tfn both(self) -> bool {\n\t\treturn self.flag && self.n > 3 || !self.flag && self.n < 2\n\t}")
         L.append("\tfn drain(self) -> int {\n\t\tassert self.flag || !self.flag\n\t\tc = 0\n\t\twhile self.flag {\n\t\t\tself.flag = false\n\t\t\tc = c + 1\n\t\t}\n\t\treturn c\n\t}")
+    if "fl" in feats:
+        L.append("\tfn flip(self) -> float {\n\t\tself.fl = self.fl * -1.0\n\t\treturn self.fl\n\t}")
+        L.append("\tfn addf(self, v: float) -> float {\n\t\tself.fl += v\n\t\treturn self.fl\n\t}")
     if "big" in feats:
         L.append("\tfn grow(self) -> bigint {\n\t\tself.big = self.big * B3 + self.n\n\t\treturn self.big\n\t}")
     if "s" in feats:
@@ -108,6 +123,7 @@ class HObj:
         self.other = None
         self.flag = False
         self.big = 1
+        self.fl = 0.0
 
 
 class Interp:
@@ -168,6 +184,9 @@ class Interp:
             f = self.feats[o.cls]
             em.code("print %s.n" % name)
             em.out(str(o.n))
+            if "fl" in f and self.step % 2:
+                em.code("print %s.fl" % name)
+                em.out(fmt_float(o.fl))
             extra = [x for x in ("s", "xs", "o") if x in f]
             if extra:
                 x = extra[self.step % len(extra)]
@@ -355,6 +374,19 @@ class Interp:
                     return False
                 em.code("print %s.negn()" % an)
                 em.out(str(-a.n if a.flag else a.n))
+            elif m == "flip":
+                if "fl" not in f:
+                    return False
+                em.code("print %s.flip()" % an)
+                a.fl = a.fl * -1.0
+                em.out(fmt_float(a.fl))
+            elif m == "addf":
+                if "fl" not in f:
+                    return False
+                v = [0.5, 1.5, -0.5, -1.5, 2.0][op["v"] % 5]
+                em.code("print %s.addf(%s)" % (an, repr(v)))
+                a.fl = a.fl + v
+                em.out(fmt_float(a.fl))
             elif m == "both":
                 if "flag" not in f:
                     return False
@@ -513,7 +545,7 @@ class Interp:
 
 METHODS = ["getn", "setn", "resetn", "add", "twice", "me", "fresh", "chain", "swapn", "sets", "cat", "size", "resize", "seto",
            "clearo", "link", "peern", "bumppeer", "getpeer", "attach", "othern", "copyfrom", "copyfrom", "getme", "toggle", "toggle", "negn", "grow", "both", "drain", "chainfresh", "chainpeer", "sharexs", "sharexs",
-           "resize"]
+           "resize", "flip", "flip", "addf"]
 
 
 def gen_op(rng, it):
@@ -522,8 +554,8 @@ def gen_op(rng, it):
         return {"op": "new", "cls": rng.choice([c[0] for c in it.classes]), "n": rng.range(0, 9)}
     if rng.chance(1, 8):
         return {"op": "churn", "cls": rng.choice([c[0] for c in it.classes]), "n": rng.range(0, 9)}
-    if rng.chance(1, 20) and len(names) < 5:
-        return {"op": "bulk_new", "cls": rng.choice([c[0] for c in it.classes]), "n": rng.choice([9, 17, 40]), "i": rng.below(40)}
+    if rng.chance(1, 40) and len(names) < 5:
+        return {"op": "bulk_new", "cls": rng.choice([c[0] for c in it.classes]), "n": rng.choice([9, 17, 33]), "i": rng.below(40)}
     a = rng.choice(names)
     same = [x for x in names if it.vars[x].cls == it.vars[a].cls]
     kind = rng.weighted([("call", 10), ("alias", 2), ("rebind", 1), ("take", 1), ("setfield", 2), ("opfield", 2), ("sfield", 1),
@@ -562,7 +594,7 @@ def gen_classes(rng):
     names = rng.sample(CLASS_NAMES, n)
     out = []
     for i, name in enumerate(names):
-        feats = [x for x in ("s", "xs", "o", "peer", "other", "me") if rng.chance(3, 5)] + [x for x in ("flag", "big") if rng.chance(1, 3)]
+        feats = [x for x in ("s", "xs", "o", "peer", "other", "me") if rng.chance(3, 5)] + [x for x in ("flag", "big", "fl") if rng.chance(1, 3)]
         if i == 0:
             feats = [x for x in feats if x != "other"]
         out.append([name, feats])
